@@ -42,6 +42,7 @@ class ECB(Mode):
         super().__init__(cipher,pad)
     # encryption mode
     def enc(self,M):
+        self.pad.reset()
         C = []
         for b in self.iterblocks(M):
             C.append(self._cipher.enc(b))
@@ -63,6 +64,7 @@ class CTS_ECB(Mode):
         super().__init__(cipher,pad)
     # encryption mode
     def enc(self,M):
+        self.pad.reset()
         n,p = divmod(len(M),self.len)
         C = []
         for b in self.iterblocks(M[:n*self.len]):
@@ -95,6 +97,7 @@ class CBC(Mode):
         self.IV = IV
     # encryption mode
     def enc(self,M):
+        self.pad.reset()
         C = [self.IV]
         for b in self.iterblocks(M):
             x = self.xorstr(b,C[-1])
@@ -121,6 +124,7 @@ class CTS_CBC(Mode):
         self.IV = IV
     # encryption mode
     def enc(self,M):
+        self.pad.reset()
         n,p = divmod(len(M),self.len)
         C = [self.IV]
         for b in self.iterblocks(M[:n*self.len]):
